@@ -5,7 +5,7 @@
      - events of the Cluster alphabet (codes 1..17): exactly Sched.ok_ev L on the underlying Cluster state, i.e.
        the single-writer discipline, what the real client does, fresh task ids, no probe event 17, and C01's two
        carve-outs: no SUPERSEDED PullTract takes effect (Sched.stale_pull, the F21 trigger) and no crash in the
-       middle of PullTract (mode 6);  L = 4 admits lost/duplicated replies, failed requests, restarts, leader changes;
+       middle of PullTract (mode 6);  L = 4 allows lost/duplicated replies, failed requests, restarts, leader changes;
      - 60 corrupt: any existing replica;  61 delete: a replica of a tract that is durable (a fault destroys a
        replica of a tract, not a file that is just being created);
      - 62 scrub step, 63 heartbeat with failure report, 64 CheckTracts, 65 health belief, 66 detect round: always;
